@@ -3,6 +3,9 @@ package worlds
 import (
 	"encoding/json"
 	"fmt"
+	"io"
+	"os"
+	"syscall"
 
 	"verif/sim/core"
 	"verif/sim/simio"
@@ -17,6 +20,23 @@ type IOFault struct {
 	PinSide string `json:"pin_side,omitempty"`
 	PinK    int    `json:"pin_k,omitempty"`
 	PinForm bool   `json:"pin_form,omitempty"` // write: short write; read: error together with data
+	// ErrKind selects the error value the failing source/destination returns
+	// (0 a private error, 1 io.ErrUnexpectedEOF, 2 io.ErrClosedPipe, 3 io.ErrNoProgress, 4 syscall.ECONNRESET).
+	ErrKind int `json:"err_kind,omitempty"`
+}
+
+func (s *IOFault) errValue() error {
+	switch s.ErrKind {
+	case 1:
+		return io.ErrUnexpectedEOF
+	case 2:
+		return io.ErrClosedPipe
+	case 3:
+		return io.ErrNoProgress
+	case 4:
+		return syscall.ECONNRESET
+	}
+	return simio.ErrInjected
 }
 
 type ioFaultWorld struct{}
@@ -29,7 +49,7 @@ func (ioFaultWorld) Gen(seed uint64, tier string) core.Scenario {
 	} else {
 		src = &FileSrc{Foreign: genForeign(r, tier)}
 	}
-	return &IOFault{Src: src}
+	return &IOFault{Src: src, ErrKind: r.Weighted(50, 20, 10, 10, 10)}
 }
 func (ioFaultWorld) Decode(raw json.RawMessage) (core.Scenario, error) {
 	var s IOFault
@@ -57,6 +77,13 @@ func (s *IOFault) Shrinks(try func(core.Scenario) bool) bool {
 		return try(&c)
 	}) {
 		return true
+	}
+	if s.ErrKind != 0 {
+		c := *s
+		c.ErrKind = 0
+		if try(&c) {
+			return true
+		}
 	}
 	if s.PinSide == "" {
 		n := len(s.Src.produce().data)
@@ -96,7 +123,7 @@ func (s *IOFault) Run(env *core.Env, st *core.Stats) (vs []core.Violation) {
 	if s.Src.Hist != nil && s.PinSide != "read" {
 		writeFault := func(k int, short bool) bool {
 			val, _, _ := s.Src.Hist.Build()
-			d := &simio.Disk{Limit: k, Short: short}
+			d := &simio.Disk{Limit: k, Short: short, Err: s.errValue()}
 			o := writeTo(val, d)
 			st.Eval(1)
 			if short {
@@ -145,6 +172,32 @@ func (s *IOFault) Run(env *core.Env, st *core.Stats) (vs []core.Violation) {
 		}
 	}
 
+	// ---------------- the file-name API on a device that is full (a real failing file system:
+	// a symbolic link in the scratch directory to /dev/full, so that WriteFile's own clean-up
+	// removes only the link)
+	if s.Src.Hist != nil && s.PinSide == "" && env != nil && env.T != nil && S%4 == 0 {
+		if fi, err := os.Stat("/dev/full"); err == nil && fi.Mode()&os.ModeCharDevice != 0 {
+			link := tempDir(env) + "/full.mid"
+			os.Remove(link)
+			if err := os.Symlink("/dev/full", link); err == nil {
+				val, _, _ := s.Src.Hist.Build()
+				var werr error
+				g := guarded(libBudget, false, func() { werr = val.WriteFile(link) })
+				os.Remove(link)
+				st.Eval(1)
+				st.Fault("disk-full(WriteFile)")
+				if g.panicked || g.timeout {
+					vs = append(vs, core.V("panic", panicKey(g.panicMsg), "WriteFile on a full device: %s", g.panicMsg))
+					return vs
+				}
+				if werr == nil {
+					vs = append(vs, core.V("write-error-swallowed", "writefile:disk-full", "WriteFile onto a full device (every write fails with ENOSPC) returned nil for a file of %d bytes", S))
+					return vs
+				}
+			}
+		}
+	}
+
 	// ---------------- read side
 	if s.PinSide != "write" {
 		// how many bytes does the fault-free read consume?
@@ -156,7 +209,7 @@ func (s *IOFault) Run(env *core.Env, st *core.Stats) (vs []core.Violation) {
 		}
 		consumed := cr.N
 		readFault := func(k int, withData bool) bool {
-			fr := &simio.FailReader{Data: sf.data, K: k, WithData: withData}
+			fr := &simio.FailReader{Data: sf.data, K: k, WithData: withData, Err: s.errValue()}
 			o := readFrom(fr, S, false)
 			st.Eval(1)
 			if withData {
